@@ -1,4 +1,5 @@
 import MirProofs.Lemmas.IntervalsScore
+import MirProofs.Lemmas.IntervalsSplit
 /-!
   C12 — interval scores are duration-weighted and blind to how time is cut up.
 
@@ -7,6 +8,12 @@ import MirProofs.Lemmas.IntervalsScore
   for an arbitrary comparison function `cmp` on abstract label tokens; `mergeChord` models
   `chord.merge_chord_intervals` on encoded-chord tokens; `intervalsToSamples` is the frame sampling used by
   the `segment` metrics.  All statements are for annotations of arbitrary size.
+
+  Last section: the whole `chord.evaluate` pipeline (`evaluateTokens`: span of the reference, `adjust_intervals`
+  of the estimate with the no-chord token, `merge_chord_intervals` for under- and over-segmentation and `seg`,
+  `merge_labeled_intervals` + durations + `weighted_accuracy` for the accuracy under ANY comparison function) is
+  invariant under cutting a reference or an estimate interval in two — including when the cut estimate interval
+  is cropped or padded by `adjust_intervals`, and exceptions included.
 -/
 namespace Mir.C12
 open Mir.Iv
@@ -152,5 +159,86 @@ example :
     intervalsToSamples [((0 : Rat), (1 : Rat), "a"), (1, 3, "a"), (3, 4, "b")] 0 1 "F"
       = .ok ([0, 1, 2, 3], ["a", "a", "a", "b"]) ∧
     labelAt [((0 : Rat), (1 : Rat), "a"), (1, 3, "a"), (3, 4, "b")] 1 = some "a" := by decide +kernel
+
+/-! ### the same without any alignment, contiguity or ordering hypothesis -/
+
+/-- cutting a reference interval `[s, e)` at any `r` with `s ≤ r ≤ e` changes no chord accuracy — result,
+    `nan` or exception alike — for ARBITRARY annotations (gaps, overlaps, zero-length rows, misaligned
+    spans, negative times: whatever `merge_labeled_intervals` does with them, it does the same after the cut) -/
+theorem chord_score_split_ref_any (cmp : L → M → Rat) (x₁ x₂ : LI L) {s r e : Rat} (l : L) (y : LI M)
+    (h1 : s ≤ r) (h2 : r ≤ e) :
+    chordScore cmp (x₁ ++ (s, r, l) :: (r, e, l) :: x₂) y = chordScore cmp (x₁ ++ (s, e, l) :: x₂) y :=
+  chordScore_split_left cmp x₁ x₂ l y h1 h2
+
+/-- the same for an estimated interval -/
+theorem chord_score_split_est_any (cmp : L → M → Rat) (x : LI L) (y₁ y₂ : LI M) {s r e : Rat} (l : M)
+    (h1 : s ≤ r) (h2 : r ≤ e) :
+    chordScore cmp x (y₁ ++ (s, r, l) :: (r, e, l) :: y₂) = chordScore cmp x (y₁ ++ (s, e, l) :: y₂) :=
+  chordScore_split_right cmp x y₁ y₂ l h1 h2
+
+/-! ### `adjust_intervals` commutes with cutting an interval -/
+
+/-- `util.adjust_intervals` (any `t_min`, `t_max`, incl. absent) applied to an annotation with one interval cut
+    in two gives the same exception, or the same rows, or the same rows with one row cut in two
+    (`SplitOrEq`; the cut disappears when it falls outside the range).  Only hypothesis besides `s ≤ r ≤ e`:
+    the rows after the cut one start no earlier than its end. -/
+theorem adjust_intervals_split (y₁ y₂ : LI L) {s r e : Rat} (l : L) (h1 : s ≤ r) (h2 : r ≤ e)
+    (hord : ∀ row ∈ y₂, e ≤ row.1) (tmin tmax : Option Rat) (sl el : L) :
+    PyRel SplitOrEq (adjustIntervals (y₁ ++ (s, r, l) :: (r, e, l) :: y₂) tmin tmax sl el)
+      (adjustIntervals (y₁ ++ (s, e, l) :: y₂) tmin tmax sl el) :=
+  adjustIntervals_split tmin tmax sl el ⟨y₁, y₂, s, r, e, l, rfl, rfl, h1, h2, hord⟩
+
+/-! ### the whole `chord.evaluate` pipeline -/
+
+/-- **Reference cut.**  For every comparison function, every no-chord token and ALL reference and estimate
+    annotations (no validity hypothesis at all): cutting a reference interval `[s, e)` at `r`, `s ≤ r ≤ e`,
+    leaves the whole result of `chord.evaluate` — accuracy, underseg, overseg, seg, or the exception —
+    unchanged. -/
+theorem evaluate_split_ref {T : Type} [DecidableEq T] (cmp : T → T → Rat) (noChord : T) (x₁ x₂ : LI T)
+    {s r e : Rat} (l : T) (est : LI T) (h1 : s ≤ r) (h2 : r ≤ e) :
+    evaluateTokens cmp noChord (x₁ ++ (s, r, l) :: (r, e, l) :: x₂) est =
+      evaluateTokens cmp noChord (x₁ ++ (s, e, l) :: x₂) est :=
+  evaluateTokens_split_ref cmp noChord x₁ x₂ l est h1 h2
+
+/-- **Estimate cut.**  The same for an estimated interval, through the crop / pad of `adjust_intervals` to the
+    reference span (the cut may fall before, inside or after the span; the estimate may start late, end early,
+    have gaps, or lie wholly outside the span).  The only hypothesis on the annotations: the estimate rows that
+    follow the cut one start no earlier than its end `e` (implied by a time-ordered estimate). -/
+theorem evaluate_split_est {T : Type} [DecidableEq T] (cmp : T → T → Rat) (noChord : T) (ref : LI T)
+    (y₁ y₂ : LI T) {s r e : Rat} (l : T) (h1 : s ≤ r) (h2 : r ≤ e) (hord : ∀ row ∈ y₂, e ≤ row.1) :
+    evaluateTokens cmp noChord ref (y₁ ++ (s, r, l) :: (r, e, l) :: y₂) =
+      evaluateTokens cmp noChord ref (y₁ ++ (s, e, l) :: y₂) :=
+  evaluateTokens_split_est cmp noChord ref ⟨y₁, y₂, s, r, e, l, rfl, rfl, h1, h2, hord⟩
+
+/-- in particular for a time-ordered estimate with positive durations (`Chain`: what
+    `validate_intervals` + sortedness give), cut at an interior point -/
+theorem evaluate_split_est_ordered {T : Type} [DecidableEq T] (cmp : T → T → Rat) (noChord : T) (ref : LI T)
+    {lo : Rat} {y₁ y₂ : LI T} {s r e : Rat} {l : T} (hy : Chain lo (y₁ ++ (s, e, l) :: y₂))
+    (h1 : s < r) (h2 : r < e) :
+    evaluateTokens cmp noChord ref (y₁ ++ (s, r, l) :: (r, e, l) :: y₂) =
+      evaluateTokens cmp noChord ref (y₁ ++ (s, e, l) :: y₂) :=
+  evaluate_split_est cmp noChord ref y₁ y₂ l (le_of_lt h1) (le_of_lt h2) (chain_after hy)
+
+/-- non-vacuity: reference span `[1, 5]`; the estimate `[0, 4) [4, 6)` is cropped at both ends; cuts before
+    `t_min`, inside, and after `t_max`, and a reference cut: all four scores stay `3/4` -/
+example :
+    let c : Int → Int → Rat := fun a b => if a = b then 1 else 0
+    let ref : LI Int := [((1 : Rat), (3 : Rat), 7), (3, 5, 9)]
+    let v : Py (List Num) := .ok [.val (3/4), .val (3/4), .val (3/4), .val (3/4)]
+    evaluateTokens c (-1) ref [((0 : Rat), (4 : Rat), 7), (4, 6, 9)] = v ∧
+    evaluateTokens c (-1) ref [((0 : Rat), (1/2 : Rat), 7), (1/2, 4, 7), (4, 6, 9)] = v ∧
+    evaluateTokens c (-1) ref [((0 : Rat), (2 : Rat), 7), (2, 4, 7), (4, 6, 9)] = v ∧
+    evaluateTokens c (-1) ref [((0 : Rat), (4 : Rat), 7), (4, 11/2, 9), (11/2, 6, 9)] = v ∧
+    evaluateTokens c (-1) [((1 : Rat), (2 : Rat), 7), (2, 3, 7), (3, 5, 9)] [((0 : Rat), (4 : Rat), 7), (4, 6, 9)] = v ∧
+    adjustIntervals [((0 : Rat), (1/2 : Rat), (7 : Int)), (1/2, 4, 7), (4, 11/2, 9), (11/2, 6, 9)] (some 1) (some 5)
+      (-1) (-1) = .ok [(1, 4, 7), (4, 5, 9)] := by decide +kernel
+
+/-- the ordering hypothesis of `evaluate_split_est` cannot be dropped: with a row that starts before the end of
+    an earlier one, `adjust_intervals` stops cropping at different places -/
+example :
+    let c : Int → Int → Rat := fun a b => if a = b then 1 else 0
+    evaluateTokens c (-1) [((0 : Rat), (4 : Rat), 7)] [((0 : Rat), (6 : Rat), 7), (1, 2, 9)] = .error .valueError ∧
+    evaluateTokens c (-1) [((0 : Rat), (4 : Rat), 7)] [((0 : Rat), (5 : Rat), 7), (5, 6, 7), (1, 2, 9)]
+      = .ok [.val 1, .val 1, .val 1, .val 1] := by decide +kernel
 
 end Mir.C12
